@@ -726,10 +726,12 @@ func Run(ctx *core.Ctx) error {
 	rng := ctx.Rand("zpool-examples")
 	var iso []runRec
 	found := map[string]bool{}
+	tries := map[string]int{}
 	for _, ks := range core.SortedKeys(all) {
 		k := ks[:strings.Index(ks, "|")]
 		l := all[ks]
-		for try := 0; try < 6 && !found[k]; try++ {
+		for try := 0; try < 8 && !found[k] && tries[k] < 40; try++ {
+			tries[k]++
 			r := &recs[l[rng.Intn(len(l))]]
 			if r.Mode == "free-running" {
 				break
